@@ -247,6 +247,125 @@ class _GetMedia:
         types = h.type.elts if isinstance(h.type, ast.Tuple) else [h.type]
         return '|'.join(sorted((self.p.resolve_expr(self.f.module, t, self.f) or short(t)).rsplit('.', 1)[-1] for t in types))
 
+    def is_caught_name(self, e) -> bool:
+        """`err` of an `except ... as err` of this function, bound nowhere else: the exception that arm caught"""
+        return isinstance(e, ast.Name) and e.id not in self.f.params() and not _assignments(self.f.node, e.id) \
+            and any(n.kind == 'handler' and n.ast.name == e.id for n in self.cfg.live_nodes())
+
+    # -------------------------------------------------- class split of a broad handler
+    def handler_splits(self) -> Dict[int, Tuple[str, bool]]:
+        """handler node id -> (C, C may arrive): a handler `except <broad> as err` whose arm tests `isinstance(err, C)` (C a strict
+        subclass of what the arm catches) stands for the two arms `except C` / `except <broad>`; `C may arrive` is False when an
+        earlier arm of the same try already takes C."""
+        p, f, cfg = self.p, self.f, self.cfg
+        out = {}
+        for h in cfg.live_nodes():
+            if h.kind != 'handler' or not h.ast.name or not self.is_caught_name(ast.Name(id=h.ast.name)):
+                continue
+            if sum(1 for n in cfg.live_nodes() if n.kind == 'handler' and n.ast.name == h.ast.name and n.ast is not h.ast) > 0:
+                continue
+            types = [] if h.ast.type is None else (h.ast.type.elts if isinstance(h.ast.type, ast.Tuple) else [h.ast.type])
+            caught = [p.resolve_expr(f.module, t, f) for t in types] or ['builtins.BaseException']
+            classes = set()
+            for x in walk_self(ast.Module(body=h.ast.body, type_ignores=[])):
+                if isinstance(x, ast.Call) and isinstance(x.func, ast.Name) and x.func.id == 'isinstance' and len(x.args) == 2 \
+                        and isinstance(x.args[0], ast.Name) and x.args[0].id == h.ast.name:
+                    classes.add(p.resolve_expr(f.module, x.args[1], f) if not isinstance(x.args[1], ast.Tuple) else None)
+            if len(classes) != 1 or None in classes:
+                continue
+            c = next(iter(classes))
+            if c in caught or not any(q and p.is_subclass(c, q) is True for q in caught):
+                continue
+            earlier = False
+            tr = h.stmt if isinstance(h.stmt, ast.Try) else None
+            if tr is not None:
+                for arm in tr.handlers:
+                    if arm is h.ast:
+                        break
+                    ts = [] if arm.type is None else (arm.type.elts if isinstance(arm.type, ast.Tuple) else [arm.type])
+                    if arm.type is None or any(p.is_subclass(c, p.resolve_expr(f.module, t, f) or '?') is True for t in ts):
+                        earlier = True
+            out[h.id] = (c, not earlier)
+        return out
+
+    def project_split(self):
+        """flow.project of the event alphabet, path-sensitive for the class of the caught exception: the exceptional edge
+        into a split handler emits X:<C> / X:<broad> and enters the copy of the graph in which every later
+        `isinstance(err, C)` test has the matching outcome only.  The folded arm thereby projects onto the words of the
+        two-arm form."""
+        p, f, cfg = self.p, self.f, self.cfg
+        splits = self.handler_splits()
+        names = {cfg.node(h).ast.name: c for h, (c, _) in splits.items()}
+        if len(set(names.values())) > 1:
+            raise UnknownIdiom('%s: several handlers split by isinstance tests' % f.qual)
+        C = next(iter(names.values()), None)
+
+        def cannot_raise(n) -> bool:
+            """a test whose only calls are isinstance(<name or self attribute>, <a class we resolve>)"""
+            calls = n.calls()
+            return n.kind == 'test' and bool(calls) and all(
+                isinstance(c.func, ast.Name) and c.func.id == 'isinstance' and len(c.args) == 2 and not c.keywords
+                and (isinstance(c.args[0], ast.Name) or _is_attr_of(c.args[0], 'self', c.args[0].attr if isinstance(c.args[0], ast.Attribute) else ''))
+                and (p.resolve_expr(f.module, c.args[1], f) or '') in p.classes for c in calls)
+
+        def feasible(n, truth, bit) -> bool:
+            for a in [x for x in walk_self(n.ast) if isinstance(x, ast.Call) and isinstance(x.func, ast.Name) and x.func.id == 'isinstance'
+                      and len(x.args) == 2 and isinstance(x.args[0], ast.Name) and x.args[0].id in names]:
+                r = implied(n.ast, truth, lambda e, a=a: e is a)
+                if r is None:
+                    continue
+                q = p.resolve_expr(f.module, a.args[1], f)
+                if bit == 'C' and q and p.is_subclass(C, q) is True and r is False:
+                    return False
+                if bit == 'N' and q == C and r is True:
+                    return False
+            return True
+
+        nfa = flow.NFA()
+        ins, mids, outs = {}, {}, {}
+        live = cfg.reachable_ids
+        bits = ('-', 'C', 'N')
+        for bit in bits:
+            for n in cfg.nodes:
+                if n.id not in live:
+                    continue
+                cur = ins[(n.id, bit)] = nfa.new()
+                labels = list(self.labels(n)) if n.kind not in ('entry', 'exit', 'xexit') else []
+                for lab in [l for l in labels if l.startswith('^')]:
+                    nxt = nfa.new()
+                    nfa.add(cur, lab[1:], nxt, n.id)
+                    cur = nxt
+                mids[(n.id, bit)] = cur
+                for lab in [l for l in labels if not l.startswith('^')]:
+                    nxt = nfa.new()
+                    nfa.add(cur, lab, nxt, n.id)
+                    cur = nxt
+                outs[(n.id, bit)] = cur
+        for bit in bits:
+            for n in cfg.nodes:
+                if n.id not in live:
+                    continue
+                for (y, l) in cfg.succ[n.id]:
+                    src = mids[(n.id, bit)] if l == 'exc' else outs[(n.id, bit)]
+                    if l == 'exc' and cannot_raise(n):
+                        continue
+                    if l == 'exc' and y in splits and bit == '-':
+                        c, arrives = splits[y]
+                        if arrives:
+                            nfa.add(src, 'X:' + c.rsplit('.', 1)[-1], ins[(y, 'C')], n.id)
+                        nfa.add(src, 'X:' + self._handler_name(cfg.node(y)), ins[(y, 'N')], n.id)
+                        continue
+                    if bit != '-' and n.kind == 'test' and l in ('T', 'F') and not feasible(n, l == 'T', bit):
+                        continue
+                    nfa.add(src, self.edge_label(n.id, y, l), ins[(y, bit)], n.id)
+        nfa.start = ins[(cfg.entry, '-')]
+        fin = nfa.new()
+        nfa.accept.add(fin)
+        for bit in bits:
+            nfa.accept.add(outs[(cfg.exit, bit)])
+            nfa.add(outs[(cfg.xexit, bit)], '!raise', fin, cfg.xexit)
+        return nfa
+
 
 def _check_get_media(run, qual: str):
     p = run.project
@@ -396,7 +515,7 @@ def _check_get_media(run, qual: str):
 
     def nf_instance(test, truth):
         for a in [x for x in walk_self(test) if isinstance(x, ast.Call) and isinstance(x.func, ast.Name) and x.func.id == 'isinstance'
-                  and len(x.args) == 2 and _is_attr_of(x.args[0], 'self', '_media_error')]:
+                  and len(x.args) == 2 and (is_cached_error(x.args[0]) or g.is_caught_name(x.args[0]))]:
             q = p.resolve_expr(f.module, a.args[1], f)
             if q and p.is_subclass(q, NOT_FOUND) is True:
                 r = implied(test, truth, lambda e, a=a: e is a)
@@ -433,8 +552,7 @@ def r1_parse_once(run):
     # sibling equality over the event alphabet
     dfas = []
     for g in (gw, ga):
-        nfa = flow.project(g.cfg, g.labels, accept_exit=True, accept_xexit='!raise', edge_labeler=g.edge_label)
-        dfas.append(flow.determinise(nfa))
+        dfas.append(flow.determinise(g.project_split()))
     diff = flow.language_diff(dfas[0], dfas[1])
     for wd in flow.words(dfas[0], limit=4, maxlen=24):
         run.sample({'rule': 'R1', 'accepted_event_trace': wd})
@@ -553,6 +671,15 @@ def r2_error_mapping(run):
                  and p.resolve_expr(f.module, n.ast.exc.func if isinstance(n.ast.exc, ast.Call) else n.ast.exc, f) == NOT_FOUND]
     loads = [n for n in cfg.live_nodes() if any(isinstance(c.func, ast.Attribute) and c.func.attr == '_loads' for c in n.calls())]
     if not loads:
+        # the loader under a local alias / json.loads itself / inside a same-module helper handed the data (R3's reading)
+        feed = _LoaderFeed(run, p.cls('falcon.media.json.JSONHandler'))
+        feed.find_slots(p.func('falcon.media.json.JSONHandler.__init__'))
+        feed.analyse(f, ((data, frozenset({_K_BYTES})),))
+        with_sink = {q for (q, _) in feed.sinks}
+        loads = [n for n in cfg.live_nodes() if any(
+            (f.qual, id(c)) in feed.sinks or (isinstance(c.func, (ast.Name, ast.Attribute)) and isinstance(p.resolve_callable(f, c.func), Func)
+                                              and p.resolve_callable(f, c.func).qual in with_sink - {f.qual}) for c in n.calls())]
+    if not loads:
         raise AnchorError('%s: call of the configured loads() not found' % f.qual)
     # under the assumption "the body is empty (falsy)" the only way out is MediaNotFoundError
     feas = _feasible(cfg, lambda e: False if is_data(e) else None)
@@ -603,6 +730,358 @@ def _codec_calls(f: Func, attr: str) -> List[ast.Call]:
     return [c for c in walk_self(f.node) if isinstance(c, ast.Call) and isinstance(c.func, ast.Attribute) and c.func.attr == attr]
 
 
+# R3 (second clause, added after seeded change s11-c12-1): what a JSON loader is called with.
+#
+# "any undecodable body yields a 400-class malformed-media error": the serializer writes strict UTF-8, so the reader must
+# accept exactly the strict UTF-8 bodies.  `json.loads` (and its documented replacements) handed BYTES guess the encoding
+# themselves (UTF-8/16/32 by the first bytes, BOM accepted, surrogatepass), so every call on the deserialisation path of
+# JSONHandler whose callee is a loader - the configured slot(s), a local alias of one, `json.loads` under any import alias,
+# `json.load`, `json.JSONDecoder().decode` - must receive TEXT: a value that went through `.decode(...)` / `str(b, enc)` /
+# `codecs.decode(b, enc)` (the codec of that decode is then judged by the codec-agreement clause), on EVERY path.
+# Decided by a forward may-dataflow of value kinds over the CFG of the entrances `_deserialize(data=BYTES)`,
+# `deserialize(stream=STREAM)`, `deserialize_async(stream=STREAM)` and of every function bound to the `_deserialize_sync`
+# shortcut slot, looked through same-module helpers (one summary per argument-kind context).
+
+_K_BYTES, _K_STREAM, _K_LOADS, _K_TOP, _K_OTHER = 'bytes', 'stream', 'loads', 'top', 'other'
+_BYTES_TYPES = {'builtins.bytes', 'builtins.bytearray', 'builtins.memoryview'}
+_KEEP_KIND_METHODS = {'strip', 'lstrip', 'rstrip'}           # bytes -> bytes, text -> the same text
+
+
+def _names_in_target(t) -> List[str]:
+    return [x.id for x in ast.walk(t) if isinstance(x, ast.Name)]
+
+
+class _LoaderFeed:
+    def __init__(self, run, cls):
+        self.run, self.p, self.cls = run, run.project, cls
+        self.slots: Set[str] = set()
+        self.sinks: Dict[Tuple[str, int], list] = {}        # (qual, id(call)) -> [func, call, kinds, what]
+        self.decodes: Dict[int, tuple] = {}                 # id(call) -> (func, call, codec, errors)
+        self.memo: Dict[tuple, frozenset] = {}
+        self.active: Set[tuple] = set()
+
+    # -- which attributes of self hold the loader
+    def find_slots(self, init: Func):
+        params = set(init.params())
+        for n in walk_self(init.node):
+            if not isinstance(n, (ast.Assign, ast.AnnAssign)) or n.value is None:
+                continue
+            tgts = n.targets if isinstance(n, ast.Assign) else [n.target]
+            cands = [n.value]
+            flat = []
+            while cands:
+                v = cands.pop()
+                if isinstance(v, ast.BoolOp):
+                    cands.extend(v.values)
+                elif isinstance(v, ast.IfExp):
+                    cands.extend([v.body, v.orelse])
+                else:
+                    flat.append(v)
+            if any(isinstance(v, (ast.Name, ast.Attribute)) and self.p.resolve_callable(init, v) == 'json.loads' for v in flat) \
+                    or any(isinstance(v, ast.Name) and v.id == 'loads' and v.id in params for v in flat):
+                for t in tgts:
+                    if isinstance(t, ast.Attribute) and isinstance(t.value, ast.Name) and t.value.id == 'self':
+                        self.slots.add(t.attr)
+        if not self.slots:
+            raise AnchorError('%s: the attribute holding the configured loads() was not found' % init.qual)
+
+    # -- one function under one context of parameter kinds
+    def analyse(self, f: Func, ctx: tuple) -> frozenset:
+        key = (f.qual, ctx)
+        if key in self.memo:
+            return self.memo[key]
+        if key in self.active or len(self.active) > 6:
+            return frozenset({_K_TOP})
+        self.active.add(key)
+        p = self.p
+        cfg = cfg_of(f, p)
+        self.run.use_cfg(cfg)
+
+        def kinds_of(facts, name):
+            return {k for (n, k) in facts if n == name}
+
+        def loader_kind(e, facts) -> Optional[str]:
+            """'loads' (takes the document) / 'load' (takes a file object) / None"""
+            e = strip_await(e)
+            if isinstance(e, ast.Attribute) and isinstance(e.value, ast.Name) and e.value.id == 'self' and e.attr in self.slots:
+                return 'loads'
+            if isinstance(e, ast.Name) and kinds_of(facts, e.id):
+                return 'loads' if _K_LOADS in kinds_of(facts, e.id) else None
+            if isinstance(e, (ast.Name, ast.Attribute)):
+                r = p.resolve_callable(f, e)
+                if r == 'json.loads':
+                    return 'loads'
+                if r == 'json.load':
+                    return 'load'
+                if isinstance(e, ast.Attribute) and e.attr in ('decode', 'raw_decode') and isinstance(e.value, ast.Call) \
+                        and p.resolve_callable(f, e.value.func) == 'json.JSONDecoder':
+                    return 'loads'
+            return None
+
+        def text_kind(call, codec_args, keywords):
+            fake = ast.Call(func=call.func, args=list(codec_args), keywords=list(keywords))
+            codec, errors = _codec_of(fake)
+            self.decodes[id(call)] = (f, call, codec, errors)
+            return ('text', id(call))
+
+        def ev(e, facts) -> Set:
+            e = strip_await(e)
+            if e is None or isinstance(e, ast.Constant):
+                return {_K_OTHER}
+            if isinstance(e, ast.NamedExpr):
+                return ev(e.value, facts)
+            if isinstance(e, ast.IfExp):
+                return ev(e.body, facts) | ev(e.orelse, facts)
+            if isinstance(e, ast.BoolOp):
+                out = set()
+                for v in e.values:
+                    out |= ev(v, facts)
+                return out
+            if loader_kind(e, facts) is not None and not isinstance(e, ast.Name):
+                return {_K_LOADS}
+            if isinstance(e, ast.Name):
+                ks = kinds_of(facts, e.id)
+                if ks:
+                    return set(ks)
+                return {_K_LOADS} if loader_kind(e, facts) else {_K_TOP}
+            if isinstance(e, ast.Subscript):
+                inner = ev(e.value, facts)
+                if isinstance(e.slice, ast.Slice):
+                    return inner
+                return {_K_TOP} if inner - {_K_OTHER} else {_K_OTHER}
+            if isinstance(e, ast.BinOp) and isinstance(e.op, ast.Add):
+                l, r = ev(e.left, facts), ev(e.right, facts)
+                if _K_BYTES in l or _K_BYTES in r:
+                    return {_K_BYTES}
+                return {_K_TOP}
+            if isinstance(e, ast.Call):
+                fn = e.func
+                args = list(e.args)
+                r = p.resolve_callable(f, fn) if isinstance(fn, (ast.Name, ast.Attribute)) else None
+                if isinstance(fn, ast.Attribute) and fn.attr == 'decode' and r != 'codecs.decode' and loader_kind(fn, facts) is None:
+                    return {text_kind(e, args, e.keywords)}
+                if r == 'builtins.str' and args and (len(args) > 1 or any(k.arg in ('encoding', 'errors') for k in e.keywords)):
+                    return {text_kind(e, args[1:], e.keywords)}
+                if r == 'codecs.decode' and args:
+                    return {text_kind(e, args[1:], e.keywords)}
+                if r in _BYTES_TYPES and len(args) == 1 and not e.keywords:
+                    inner = ev(args[0], facts)
+                    return inner if inner <= {_K_BYTES} else ({_K_BYTES, _K_TOP} if _K_BYTES in inner else {_K_TOP})
+                if r == 'io.BytesIO' and len(args) == 1:
+                    return {_K_STREAM} if _K_BYTES in ev(args[0], facts) else {_K_TOP}
+                if isinstance(fn, ast.Attribute):
+                    recv = ev(fn.value, facts)
+                    if fn.attr in ('read', 'readall', 'readline', 'read1', 'getvalue') and _K_STREAM in recv:
+                        return {_K_BYTES}
+                    if fn.attr == 'tobytes' and _K_BYTES in recv:
+                        return {_K_BYTES}
+                    if fn.attr in _KEEP_KIND_METHODS and recv and _K_TOP not in recv and _K_OTHER not in recv:
+                        return recv
+                    if fn.attr == 'join' and isinstance(fn.value, ast.Constant) and isinstance(fn.value.value, bytes):
+                        return {_K_BYTES}
+                if loader_kind(fn, facts) is not None:
+                    return {_K_OTHER}               # the parsed document
+                if isinstance(r, Func) and r.module is f.module and not r.is_property():
+                    sub = self.bind(r, e, lambda a: frozenset(ev(a, facts)))
+                    if sub is not None:
+                        return set(self.analyse(r, sub))
+                return {_K_TOP}
+            if isinstance(e, ast.Attribute):
+                return {_K_TOP}
+            return {_K_TOP}
+
+        def bind_names(facts, names, kinds):
+            names = set(names)
+            out = {(n, k) for (n, k) in facts if n not in names}
+            for n in names:
+                for k in kinds:
+                    out.add((n, k))
+            return frozenset(out)
+
+        def isinstance_atom(e):
+            return isinstance(e, ast.Call) and isinstance(e.func, ast.Name) and e.func.id == 'isinstance' and len(e.args) == 2 \
+                and isinstance(e.args[0], ast.Name)
+
+        def refine(test, truth, facts):
+            """drop BYTES from a name on the branch where an isinstance test rules bytes-likes out"""
+            found = []
+            for a in ast.walk(test):
+                if isinstance_atom(a):
+                    found.append(a)
+            for a in found:
+                val = implied(test, truth, lambda x: x is a)
+                if val is None:
+                    continue
+                ts = a.args[1].elts if isinstance(a.args[1], ast.Tuple) else [a.args[1]]
+                quals = {p.resolve_expr(f.module, t, f) for t in ts}
+                not_bytes = (val is True and quals and None not in quals and not (quals & _BYTES_TYPES) and quals <= {'builtins.str'}) \
+                    or (val is False and 'builtins.bytes' in quals)
+                name = a.args[0].id
+                if not_bytes and (name, _K_BYTES) in facts:
+                    rest = {(n, k) for (n, k) in facts if not (n == name and k == _K_BYTES)}
+                    if not any(n == name for (n, k) in rest):
+                        rest.add((name, _K_OTHER))
+                    facts = frozenset(rest)
+            return facts
+
+        def transfer(node, facts, label):
+            if label == 'exc':
+                return facts
+            out = facts
+            if node.kind == 'test' and label in ('T', 'F'):
+                out = refine(node.ast, label == 'T', out)
+            for x in node.walk():
+                if isinstance(x, ast.NamedExpr) and isinstance(x.target, ast.Name):
+                    out = bind_names(out, [x.target.id], ev(x.value, facts))
+            a = node.ast
+            if node.kind == 'stmt':
+                if isinstance(a, ast.Assign):
+                    ks = ev(a.value, facts)
+                    for t in a.targets:
+                        if isinstance(t, ast.Name):
+                            out = bind_names(out, [t.id], ks)
+                        elif isinstance(t, (ast.Tuple, ast.List, ast.Starred)):
+                            out = bind_names(out, _names_in_target(t), {_K_TOP})
+                elif isinstance(a, ast.AnnAssign) and a.value is not None and isinstance(a.target, ast.Name):
+                    out = bind_names(out, [a.target.id], ev(a.value, facts))
+                elif isinstance(a, ast.AugAssign) and isinstance(a.target, ast.Name):
+                    l, r = kinds_of(facts, a.target.id), ev(a.value, facts)
+                    out = bind_names(out, [a.target.id], {_K_BYTES} if (_K_BYTES in l or _K_BYTES in r) and isinstance(a.op, ast.Add) else {_K_TOP})
+                elif isinstance(a, ast.Delete):
+                    out = bind_names(out, [t.id for t in a.targets if isinstance(t, ast.Name)], set())
+                elif isinstance(a, (ast.Import, ast.ImportFrom)):
+                    out = bind_names(out, [(al.asname or al.name).split('.')[0] for al in a.names], set())
+            elif node.kind == 'iter' and label == 'next':
+                it = ev(node.stmt.iter, facts)
+                out = bind_names(out, _names_in_target(node.stmt.target),
+                                 {_K_BYTES} if it == {_K_STREAM} and isinstance(node.stmt.target, ast.Name) else {_K_TOP})
+            elif node.kind == 'with':
+                for it in node.stmt.items:
+                    if it.optional_vars is not None:
+                        out = bind_names(out, _names_in_target(it.optional_vars), {_K_TOP})
+            elif node.kind == 'handler' and a is not None and getattr(a, 'name', None):
+                out = bind_names(out, [a.name], {_K_OTHER})
+            return out
+
+        init = frozenset((n, k) for (n, ks) in ctx for k in ks)
+        IN = flow.forward(cfg, transfer, init, must=False)
+        ret: Set = set()
+        for n in cfg.live_nodes():
+            facts = IN.get(n.id, frozenset())
+            for c in n.calls():
+                lk = loader_kind(c.func, facts)
+                if lk is not None:
+                    arg = c.args[0] if c.args else next((k.value for k in c.keywords if k.arg in ('s', 'fp')), None)
+                    if arg is None or isinstance(arg, ast.Starred):
+                        raise UnknownIdiom('%s: %s' % (f.qual, short(c, 60)))
+                    ent = self.sinks.setdefault((f.qual, id(c)), [f, c, set(), lk])
+                    ent[2] |= ev(arg, facts)
+                    continue
+                r = p.resolve_callable(f, c.func) if isinstance(c.func, (ast.Name, ast.Attribute)) else None
+                if isinstance(r, Func) and r.module is f.module and not r.is_property():
+                    sub = self.bind(r, c, lambda a, facts=facts: frozenset(ev(a, facts)))
+                    if sub is not None:
+                        self.analyse(r, sub)
+            if n.kind == 'stmt' and isinstance(n.ast, ast.Return):
+                ret |= ev(n.ast.value, facts)
+        self.active.discard(key)
+        self.memo[key] = frozenset(ret)
+        return self.memo[key]
+
+    def bind(self, callee: Func, call: ast.Call, kinds) -> Optional[tuple]:
+        """the context of `callee` for this call: ((param, kinds), ...); None when the arguments cannot be matched"""
+        params = callee.params()
+        a = callee.node.args
+        if a.vararg or a.kwarg or any(isinstance(x, ast.Starred) for x in call.args) or any(k.arg is None for k in call.keywords):
+            return None
+        is_method = callee.cls is not None and not any(d.endswith('staticmethod') for d in callee.decorators)
+        bound_recv = is_method and isinstance(call.func, ast.Attribute)
+        formal = params[1:] if bound_recv else params
+        ctx = {}
+        if len(call.args) > len(formal):
+            return None
+        for name, arg in zip(formal, call.args):
+            ctx[name] = kinds(arg)
+        for k in call.keywords:
+            if k.arg not in formal:
+                return None
+            ctx[k.arg] = kinds(k.value)
+        for name in formal:
+            ctx.setdefault(name, frozenset({_K_OTHER}))
+        return tuple(sorted(ctx.items()))
+
+
+def _loader_feed(run, jc, d: Func):
+    """obligations of the loader-argument clause; returns (n_violations, decode calls that reach a loader)"""
+    p = run.project
+    init = jc.methods.get('__init__')
+    feed = _LoaderFeed(run, jc)
+    feed.find_slots(init)
+    entrances: List[Tuple[Func, tuple]] = []
+    dp = d.params()
+    if len(dp) != 2:
+        raise UnknownIdiom('%s takes %s' % (d.qual, dp))
+    entrances.append((d, ((dp[1], frozenset({_K_BYTES})),)))
+    for name in ('deserialize', 'deserialize_async'):
+        f = jc.methods.get(name)
+        if f is None:
+            raise AnchorError('%s.%s not found' % (jc.qual, name))
+        fp = f.params()
+        if len(fp) < 2:
+            raise UnknownIdiom('%s takes %s' % (f.qual, fp))
+        entrances.append((f, tuple(sorted([(fp[1], frozenset({_K_STREAM}))] + [(x, frozenset({_K_OTHER})) for x in fp[2:]]))))
+    # whatever is bound to the sync shortcut slot is called with the body bytes (Request.get_media)
+    n_bad = 0
+    for mname, m in sorted(jc.methods.items()):
+        for n in walk_self(m.node):
+            if not isinstance(n, (ast.Assign, ast.AnnAssign)) or n.value is None:
+                continue
+            tgts = n.targets if isinstance(n, ast.Assign) else [n.target]
+            if not any(_is_attr_of(t, 'self', '_deserialize_sync') for t in tgts):
+                continue
+            v = n.value
+            if isinstance(v, ast.Constant) and v.value is None:
+                continue
+            if (isinstance(v, ast.Attribute) and isinstance(v.value, ast.Name) and v.value.id == 'self' and v.attr in feed.slots) \
+                    or (isinstance(v, (ast.Name, ast.Attribute)) and p.resolve_callable(m, v) == 'json.loads'):
+                n_bad += 1
+                run.fail('JSON: the sync shortcut slot is bound to the loader itself, which then gets the raw body bytes', m, n,
+                         where=m.loc(n), runtime_witness='a UTF-16 body is accepted with 200 (and an empty or malformed one is a 500)')
+                continue
+            t = p.resolve_callable(m, v) if isinstance(v, (ast.Name, ast.Attribute)) else None
+            if not isinstance(t, Func):
+                raise UnknownIdiom('%s: %s' % (m.qual, short(n, 80)))
+            tp = t.params()
+            if len(tp) < 2:
+                raise UnknownIdiom('%s is bound to _deserialize_sync but takes %s' % (t.qual, tp))
+            run.ok('%s: _deserialize_sync is bound to %s, analysed with the body bytes as its argument' % (m.qual, t.name), m.loc(n), n)
+            ent = (t, tuple(sorted([(tp[1], frozenset({_K_BYTES}))] + [(x, frozenset({_K_OTHER})) for x in tp[2:]])))
+            if ent not in entrances:
+                entrances.append(ent)
+    for f, ctx in entrances:
+        run.use(f)
+        feed.analyse(f, ctx)
+    if not feed.sinks:
+        raise AnchorError('%s: no call of a JSON loader on the deserialisation path' % jc.qual)
+    reaching = []
+    for (q, _), (f, c, kinds, lk) in sorted(feed.sinks.items(), key=lambda kv: (kv[0][0], getattr(kv[1][1], 'lineno', 0))):
+        raw = kinds & {_K_BYTES, _K_STREAM}
+        if raw:
+            n_bad += 1
+            run.fail('JSON bytes are passed to loads() undecoded: the library then guesses the encoding (UTF-16/32, BOM, surrogatepass) '
+                     'instead of the strict UTF-8 the serializer writes', f, c, where=f.loc(c),
+                     witness=['the argument of %s may be %s on a path from the body' % (short(c.func, 40), '/'.join(sorted(raw)))],
+                     runtime_witness="a UTF-16 body is accepted with 200; b'[\"\\xed\\xa0\\x80\"]' deserializes to a lone surrogate and echoing it gives a 500")
+            continue
+        if lk == 'load' or _K_TOP in kinds or _K_LOADS in kinds:
+            raise UnknownIdiom('%s: what %s is called with (expected text from a .decode() of the body)' % (f.qual, short(c, 60)))
+        texts = [k for k in kinds if isinstance(k, tuple)]
+        for k in texts:
+            reaching.append(feed.decodes[k[1]])
+        run.ok('%s: %s receives %s' % (f.qual, short(c.func, 40), 'decoded text on every path' if texts else 'no body data'), f.loc(c), c)
+    return n_bad, reaching
+
+
 def r3_codec_agreement(run):
     p = run.project
     jc = p.cls('falcon.media.json.JSONHandler')
@@ -644,21 +1123,16 @@ def r3_codec_agreement(run):
         raise AnchorError('JSONHandler._deserialize not found')
     run.use(d)
     for c in _codec_calls(d, 'decode'):
-        dec[(d, c)] = _codec_of(c)
-    if enc and not dec:
-        # the deserializer hands the raw body bytes to loads(): json.loads(bytes)
-        # sniffs UTF-8/16/32 (+BOM) and decodes with surrogatepass, so bodies
-        # that are not strict UTF-8 are accepted (or blow up later) instead of
-        # yielding the 400-class malformed-media error
-        data_param = d.params()[1] if len(d.params()) > 1 else None
-        raw = [c for c in walk_self(d.node) if isinstance(c, ast.Call) and _is_attr_of(c.func, 'self', '_loads')
-               and c.args and isinstance(c.args[0], ast.Name) and c.args[0].id == data_param]
-        if raw:
-            run.fail('JSON bytes are passed to loads() undecoded: the library then guesses the encoding (UTF-16/32, BOM, surrogatepass) '
-                     'instead of the strict UTF-8 the serializer writes', d, raw[0],
-                     runtime_witness="a UTF-16 body is accepted with 200; b'[\"\\xed\\xa0\\x80\"]' deserializes to a lone surrogate and echoing it gives a 500")
-            return
-    if not enc or not dec:
+        if p.resolve_callable(d, c.func) != 'codecs.decode':        # (read with its own argument positions by _loader_feed)
+            dec[(d, c)] = _codec_of(c)
+    # every loader call on the deserialisation path receives decoded text (on every path): json.loads(bytes)
+    # sniffs UTF-8/16/32 (+BOM) and decodes with surrogatepass, so bodies that are not strict UTF-8 are accepted
+    # (or blow up later) instead of yielding the 400-class malformed-media error
+    n_raw, reaching = _loader_feed(run, jc, d)
+    for (df, dc, codec, errors) in reaching:
+        if not any(c is dc for (_, c) in dec):
+            dec[(df, dc)] = (codec, errors)
+    if not enc or (not dec and not n_raw):
         raise AnchorError('JSONHandler: encode()/decode() of the text form not found (%d/%d)' % (len(enc), len(dec)))
     for (f, c), (codec, errors) in sorted(enc.items(), key=lambda kv: kv[0][0].qual):
         run.use(f)
@@ -1844,7 +2318,7 @@ def check(run):
     run.assume('urllib.parse.urlencode emits pure ASCII')
     run.rule('R1', _safe(r1_parse_once), 'get_media: parse once, cache value and error, exhaust, default only for not-found; WSGI==ASGI', floor=50)
     run.rule('R2', _safe(r2_error_mapping), 'JSON/URL-encoded handlers map failures to the two 400-class media errors', floor=9)
-    run.rule('R3', _safe(r3_codec_agreement), 'serializer/deserializer codec agreement', floor=7)
+    run.rule('R3', _safe(r3_codec_agreement), 'serializer/deserializer codec agreement; every JSON loader call on the deserialisation path receives decoded text', floor=8)
     run.rule('R4', _safe(r4_render_cache), 'response render cache reset by writers, honoured by the three render sites', floor=20)
     # which handler parses/renders a document is decided by the resolver: the requested type and the registered keys
     # must be compared in one case form (shared with C11 R9)
